@@ -23,7 +23,10 @@ CFG = {
     "level_note": "The theorems are about the model; the model is tied to agent.go/selection.go by the differential "
                   "correspondence of component `agent` (real agents under testing/synctest vs. the compiled model, every "
                   "operation's full canonical state compared), so a change of the code that breaks a clause shows up as a "
-                  "MISMATCH there, not as a failing Lean proof. Trusted: Lean kernel (axioms propext/Classical.choice/"
+                  "MISMATCH there, not as a failing Lean proof; EXCEPT for AddRemoteCandidate (the tcptype-active / mDNS gate), addRemoteCandidate "
+                  "(filter and duplicate exits, prflx supersession call, passive-TCP dialling condition, the pairing rule for passive remotes) and "
+                  "transportAddressEqual / Equal, which are regenerated from the Go source on every run (effect mode) and proved equal to the "
+                  "model's decisions for all arguments (C06_code_*). Trusted: Lean kernel (axioms propext/Classical.choice/"
                   "Quot.sound), the harness and its canonical digest, pion/stun decoding and HMAC modelled as perfect. Not "
                   "modelled: mDNS candidates, active TCP dialling (addRemotePassiveTCPCandidate creates nothing for the interface-less "
                   "harness agents; TCP candidates of every tcptype ARE modelled, local ones ride on the in-memory hub), automatic "
@@ -38,7 +41,8 @@ CFG = {
             "use a non-canonical address literal: the same address in both forms, before and after a prflx discovery; a third of the sessions mix udp and tcp candidates: local TCP candidates of every tcptype, the same ip:port over both transports, remote candidates signalled active / passive / so / without tcptype, duplicates differing in the tcptype only, checks and payload from TCP sources); corpus/C06/agent.ops (duplicate-pair witness, double "
             "supersession) is replayed first. Distinct = distinct (operation, output) lines; non-trivial = the output is a "
             "full agent state digest (not bad-op / ended).",
-    "translated": [],
+    "translated": ["Agent.AddRemoteCandidate", "Agent.addRemoteCandidate", "candidateBase.transportAddressEqual",
+                   "candidateBase.Equal"],
     "trusted_base": ["STUN decoding and MESSAGE-INTEGRITY are modelled as perfect",
                      "the harness digest prints checklist, candidate lists, selection, pending count after every operation"],
     "assumptions": ["theorems quantify over all event lists from a fresh agent (Init: empty checklist, candidate lists, caches; "
